@@ -1271,7 +1271,15 @@ def jobs(tier, seed):
             if not thorough and w and rnd.random() < 0.5:
                 continue
             n += 1
-            J.append(dict(kind="open", name="open-%03d-%s%s" % (n, os.path.basename(b), "+" + w if w else ""), src=src, ckind=ckind, tier=tier, small=small, stride=stride, phase=subseed(seed, "ph", b, w) % 97))
+            job = dict(kind="open", name="open-%03d-%s%s" % (n, os.path.basename(b), "+" + w if w else ""), src=src, ckind=ckind, tier=tier, small=small, stride=stride, phase=subseed(seed, "ph", b, w) % 97)
+            if thorough and len(data) > 6000:
+                # every truncation length of a 39 kB file is 117 000 opens: in slices of the fault list, so that no single job
+                # runs for an hour while fifteen cores idle (the last slice is open-ended)
+                los = list(range(0, len(data) + 1, 3000))
+                for lo in los:
+                    J.append(dict(job, name="%s[%d:]" % (job["name"], lo), lo=lo, hi=None if lo == los[-1] else lo + 3000))
+            else:
+                J.append(job)
     for i in range(8 if thorough else 2):
         J.append(dict(kind="garbage", name="garbage-%d" % i, n=(20000 if thorough else 1500), seed=subseed(seed, "garbage", i)))
     # -- fallback
